@@ -1268,7 +1268,7 @@ def random_scripts(rng, tier):
 
 
 def eval_cases(rng, tier):
-    for g in (opcode_sweep, numeric_sweep, push_sweep, limit_cases, conditional_sweep, random_scripts):
+    for g in (opcode_sweep, numeric_sweep, push_sweep, limit_cases, conditional_sweep, encoding_sweeps, random_scripts):
         for c in g(rng, tier):
             yield c
 
@@ -1306,6 +1306,14 @@ def sec(i, form="c"):
         return bytes([2 + (y & 1)]) + xb[:31]
     if form == "empty":
         return b""
+    if form == "c06":                    # 33 bytes with a hybrid prefix
+        return bytes([6 + (y & 1)]) + xb
+    if form == "u02":                    # 65 bytes with a compressed prefix
+        return bytes([2 + (y & 1)]) + xb + yb
+    if form == "u05":
+        return b"\x05" + xb + yb
+    if form == "long":
+        return b"\x04" + xb + yb + b"\x00"
     raise ValueError(form)
 
 
@@ -1394,7 +1402,7 @@ def _digest_f(tx, nin, amount, code, sv):
 
 
 HASHTYPES = [1, 1, 1, 2, 3, 0x81, 0x82, 0x83]
-PK_FORMS = ["c", "c", "c", "u", "u", "h", "hbad", "cbadprefix", "xoverflow", "offcurve", "short", "empty"]
+PK_FORMS = ["c", "c", "c", "u", "u", "h", "hbad", "cbadprefix", "xoverflow", "offcurve", "short", "empty", "c06", "u02", "u05", "long"]
 SPEND_KINDS = ["p2pk", "p2pk_not", "p2pkh", "ms", "ms_not", "p2sh_p2pk", "p2sh_ms", "p2sh_codesep", "p2wpkh", "p2wsh_p2pk",
                "p2wsh_ms", "p2wsh_codesep", "p2wsh_if", "p2wsh_big", "p2wsh_items", "p2sh_p2wpkh", "p2sh_p2wsh", "future",
                "p2sh_future", "cltv", "csv", "nonstandard", "p2sh_nonstandard", "p2wsh_nonstandard", "fad", "fad_ms", "codesep_if", "p2wsh_codesep_if", "scriptsig_checksig"]
@@ -1693,6 +1701,64 @@ def program_shape_cases(rng, tier):
                 t = SynTx(tx.version, [list(tx.vin[0])], tx.vout, tx.locktime)
                 t.vin[0][2] = ssig
                 yield SpendCase(fl, t, 0, spk, 5, "p2shshape")
+
+
+def encoding_sweeps(rng, tier):
+    """single CHECKSIG on [sig, key]: every key prefix byte x the interesting lengths; every hash type byte with a
+    signature valid for it; byte-wise mutations of a valid strict-DER signature under the DER flags"""
+    tx = SynTx(1, [[b"\x33" * 32, 2, b"", 0xFFFFFFFF, []], [b"\x34" * 32, 0, b"", 7, []]], [[5, b"\x51"], [6, b""]], 0)
+    x, y = pub(17)
+    xb, yb = x.to_bytes(32, "big"), y.to_bytes(32, "big")
+
+    def sig_for(code, sv, ht, nin=0):
+        return make_sig(rng, _digest_f(tx, nin, 9, code, sv), 17, ht, "valid")
+    fsets = [0, FL["STRICTENC"], FL["WITNESS_PUBKEYTYPE"], FL["STRICTENC"] | FL["WITNESS_PUBKEYTYPE"] | FL["NULLFAIL"]]
+    # keys: prefix x length
+    sig_cache = {}
+    for prefix in range(256):
+        for ln in (0, 1, 32, 33, 34, 64, 65, 66):
+            key = (bytes([prefix]) + xb + yb + b"\x00")[:ln]
+            for fl in fsets:
+                for sv in ("B", "W"):
+                    if tier == "quick" and sv == "W" and not (fl & FL["WITNESS_PUBKEYTYPE"]):
+                        continue
+                    for with_sig in ((False, True) if ln in (33, 65) and prefix in (2, 3, 4, 5, 6, 7) else (False,)):
+                        if with_sig:
+                            code = b"\xac"
+                            ck = (sv,)
+                            if ck not in sig_cache:
+                                sig_cache[ck] = sig_for(code, sv, 1)
+                            sg = sig_cache[ck]
+                        else:
+                            sg = b""
+                        yield EvalCase(fl, sv, b"\xac", [sg, key], tx, 0, 9, "keysweep/%02x/%d" % (prefix, ln))
+    key = bytes([2 + (y & 1)]) + xb
+    # hash types
+    for ht in range(256):
+        for sv in ("B", "W"):
+            for nin in (0, 1):
+                sg = sig_for(b"\xac", sv, ht, nin)
+                for fl in (0, FL["STRICTENC"], FL["DERSIG"] | FL["NULLFAIL"]):
+                    yield EvalCase(fl, sv, b"\xac", [sg, key], tx, nin, 9, "hashtype/%02x" % ht)
+    # DER mutations
+    base = sig_for(b"\xac", "B", 1)
+    muts = [base]
+    for i in range(len(base)):
+        for d in (1, 0x80, 0xFF):
+            muts.append(base[:i] + bytes([base[i] ^ d]) + base[i + 1:])
+        muts.append(base[:i] + base[i + 1:])
+        muts.append(base[:i] + b"\x00" + base[i:])
+    for n in (0, 1, 8, 9, 10, 72, 73, 74):
+        muts.append((base + b"\x00" * 80)[:n])
+    for m_ in muts:
+        for fl in (FL["DERSIG"], FL["STRICTENC"], FL["LOW_S"], FL["DERSIG"] | FL["NULLFAIL"], FL["LOW_S"] | FL["STRICTENC"]):
+            yield EvalCase(fl, "B", b"\xac", [m_, key], tx, 0, 9, "dermut")
+            yield EvalCase(fl, "B", b"\xac\x91", [m_, key], tx, 0, 9, "dermut_not")
+    # the same through CHECKMULTISIG 1-of-1 and 1-of-2 (key order / early exit)
+    for m_ in muts[::7]:
+        for fl in (FL["DERSIG"], FL["STRICTENC"] | FL["NULLDUMMY"], FL["NULLFAIL"] | FL["DERSIG"]):
+            yield EvalCase(fl, "B", b"\xae", [b"", m_, b"\x01", key, b"\x01"], tx, 0, 9, "dermut_cms")
+            yield EvalCase(fl, "B", b"\xae", [b"", m_, b"\x01", key, b"\x05" + xb, b"\x02"], tx, 0, 9, "dermut_cms2")
 
 
 def derived_eval_cases(sp: SpendCase):
